@@ -24,6 +24,42 @@ func runC03(c *Ctx, r *Report) {
 	r.Doc("R-C03.3", "visited gate: stack growth only for unseen entries, which are then marked; popped entries are emitted and marked")
 	r.Doc("R-C03.4", "the end hash stops the traversal")
 	r.Doc("R-C03.5", "values() walks from the receiver's heads over the receiver's Entries")
+	r.Doc("R-C03.7", "the predecessor index is extended in the same pass as the entry index (an entry's links are indexed iff the entry is inserted)")
+	r.Doc("R-C03.8", "head maps handed out as snapshots are never mutated in place (Merge is pure)")
+	pureMerge(c, r, "R-C03.8")
+	{
+		join := p.Func("", "IPFSLog", "Join")
+		nextF, entriesF2 := p.Field("", "IPFSLog", "Next"), p.Field("", "IPFSLog", "Entries")
+		loopOf := map[*types.Var]ast.Node{}
+		posOf := map[*types.Var]token.Pos{}
+		walkNoLit(join.Body, func(nd ast.Node) bool {
+			call, ok := nd.(*ast.CallExpr)
+			if !ok {
+				return true
+			}
+			se, ok := ast.Unparen(call.Fun).(*ast.SelectorExpr)
+			if !ok || se.Sel.Name != "Set" {
+				return true
+			}
+			v, _ := p.FieldSel(join, se.X)
+			if v != nextF && v != entriesF2 {
+				return true
+			}
+			// outermost enclosing loop
+			var outer ast.Node
+			for cur := p.parent[ast.Node(call)]; cur != nil && cur != ast.Node(join.Body); cur = p.parent[cur] {
+				switch cur.(type) {
+				case *ast.RangeStmt, *ast.ForStmt:
+					outer = cur
+				}
+			}
+			loopOf[v], posOf[v] = outer, call.Pos()
+			return true
+		})
+		same := loopOf[nextF] != nil && loopOf[nextF] == loopOf[entriesF2]
+		r.Check(same, "R-C03.7", r.Key("R-C03.7", join, "index-together", ""), posOf[nextF],
+			"Next and Entries are extended by the same loop over the new items", "Join extends the predecessor index (Next) and the entry index (Entries) in different passes: when the merge is refused or interrupted between them the predecessor index names entries the log does not hold, and a later merge drops a legitimate head from Values()")
+	}
 	r.Doc("R-C03.6", "the heads/index the linearisation reads are replaced atomically with respect to other operations")
 	appendSingleSection(c, r, "R-C03.6", "an operation landing in the window has its heads overwritten, so entries stay in the index but vanish from Values()")
 	sortFn := p.FuncObj("entry/sorting", "", "Sort")
